@@ -78,18 +78,8 @@ def main():
             print("replay: case holds")
         return 1 if run.violations else 0
     if a.selftest:
-        rc = 0
-        for p in ([a.prop.upper()] if a.prop else all_props()):
-            mod = load(p)
-            if hasattr(mod, "selftest"):
-                try:
-                    ok = mod.selftest(core.Run(p, "quick", seed))
-                except core.MachineryError as e:
-                    print("MACHINERY:", e)
-                    ok = False
-                print("selftest %s: %s" % (p, "ok" if ok else "FAILED"))
-                rc = rc or (0 if ok else 2)
-        return rc
+        from harness import selftest
+        return selftest.main()
     if not a.prop:
         ap.error("property id required")
     prop = a.prop.upper()
